@@ -265,6 +265,9 @@ class _mark_ignore_name(ast.NodeTransformer):
         return new_node
 
 
+_literal_types = (str, bytes, int, float, bool, complex)
+
+
 class _rewrite_captured_vars(ast.NodeTransformer):
     def __init__(self, cv: inspect.ClosureVars, inlining: Tuple[Callable, ...] = ()):
         # A variable from an enclosing function hides a global of the same name.
@@ -304,6 +307,21 @@ class _rewrite_captured_vars(ast.NodeTransformer):
                 # What the helper's own body captures (globals of its module, variables of
                 # the function it was defined in, further helpers) is resolved where the
                 # helper was defined - not where it is used.
+                # A default value was computed when the helper was defined, not now
+                def at_definition(value: Any, written: ast.expr) -> ast.expr:
+                    return as_literal(value) if type(value) in _literal_types else written
+
+                defaults = getattr(v, "__defaults__", None) or ()
+                if len(defaults) == len(lm.args.defaults):
+                    lm.args.defaults = [
+                        at_definition(value, d) for value, d in zip(defaults, lm.args.defaults)
+                    ]
+                kw_defaults = getattr(v, "__kwdefaults__", None) or {}
+                lm.args.kw_defaults = [
+                    at_definition(kw_defaults[a.arg], d) if a.arg in kw_defaults and d else d
+                    for a, d in zip(lm.args.kwonlyargs, lm.args.kw_defaults)
+                ]
+
                 try:
                     helper_vars = global_getclosurevars(v)
                 except Exception:
